@@ -18,6 +18,7 @@ import (
 	"github.com/cnotch/ipchub/config"
 	"github.com/cnotch/ipchub/media"
 	"github.com/cnotch/ipchub/network/websocket"
+	"github.com/cnotch/ipchub/provider/auth"
 	"github.com/cnotch/ipchub/provider/security"
 	"github.com/cnotch/ipchub/service/rtsp"
 	"github.com/cnotch/ipchub/stats"
@@ -271,6 +272,10 @@ func (s *Session) onDescribe(resp *rtsp.Response, req *rtsp.Request) {
 	s.url = req.URL
 	s.path = s.conn.Path() // 使用websocket路径
 	// s.path = utils.CanonicalPath(req.URL.Path)
+	if !s.checkPermission() {
+		resp.StatusCode = rtsp.StatusForbidden
+		return
+	}
 	stream := media.GetOrCreate(s.path)
 	if stream == nil {
 		resp.StatusCode = rtsp.StatusNotFound
@@ -360,6 +365,11 @@ func (s *Session) onPlay(resp *rtsp.Response, req *rtsp.Request) {
 		return
 	}
 
+	if !s.checkPermission() {
+		resp.StatusCode = rtsp.StatusForbidden
+		return
+	}
+
 	stream := media.GetOrCreate(s.path)
 	if stream == nil {
 		resp.StatusCode = rtsp.StatusNotFound
@@ -376,6 +386,16 @@ func (s *Session) onPlay(resp *rtsp.Response, req *rtsp.Request) {
 	s.status = statusPlaying
 	s.paused = false
 	return
+}
+
+// checkPermission 接入时 http 层已验证过一次；会话期间用户的权限可能被管理员收回，
+// 因此在 DESCRIBE / PLAY 时按当前保存的权限再检查
+func (s *Session) checkPermission() bool {
+	if !config.Auth() {
+		return true
+	}
+	u := auth.Get(s.conn.Username())
+	return u != nil && u.ValidatePermission(s.path, auth.PullRight)
 }
 
 func (s *Session) onPause(resp *rtsp.Response, req *rtsp.Request) {
